@@ -284,7 +284,7 @@ func build(s reqSpec) protocol.Message {
 	case "deletegroups":
 		return &deletegroups.Request{GroupIDs: s.groups}
 	case "describegroups":
-		return &describegroups.Request{Groups: s.groups}
+		return &describegroups.Request{Groups: s.groups, IncludeAuthorizedOperations: true}
 	case "initproducerid":
 		return &initproducerid.Request{TransactionalID: s.txn}
 	case "addpartitionstotxn":
@@ -322,7 +322,8 @@ func build(s reqSpec) protocol.Message {
 	case "alteruserscramcredentials":
 		return &alteruserscramcredentials.Request{}
 	case "describeconfigs":
-		r := &describeconfigs.Request{}
+		// every top-level option set: the parts Split makes have to carry them
+		r := &describeconfigs.Request{IncludeSynonyms: true, IncludeDocumentation: true}
 		for _, x := range s.resources {
 			t, _ := strconv.Atoi(x[0])
 			r.Resources = append(r.Resources, describeconfigs.RequestResource{ResourceType: int8(t), ResourceName: x[1]})
@@ -847,6 +848,10 @@ func bodyFormat(msg protocol.Message) string {
 		if len(vs) > 0 {
 			return "#m" + strings.Join(vs, ".")
 		}
+	case *describeconfigs.Request: // the request's options as they arrived (IncludeSynonyms exists from v1, IncludeDocumentation from v3)
+		return fmt.Sprintf("#s%dd%d", b2i(m.IncludeSynonyms), b2i(m.IncludeDocumentation))
+	case *describegroups.Request: // IncludeAuthorizedOperations exists from v3
+		return fmt.Sprintf("#a%d", b2i(m.IncludeAuthorizedOperations))
 	case *leavegroup.Request:
 		var ms []string
 		for _, x := range m.Members {
@@ -855,6 +860,13 @@ func bodyFormat(msg protocol.Message) string {
 		return "#" + dash(m.MemberID) + "/" + dash(strings.Join(ms, "."))
 	}
 	return ""
+}
+
+func b2i(b bool) int {
+	if b {
+		return 1
+	}
+	return 0
 }
 
 func (s *scenario) randomSpec() reqSpec {
